@@ -18,3 +18,20 @@ package archiver
 //@   requires stats.globalStats != nil && stats.globalStats.ArchiverRoutines != nil
 //@   loop for invariant [gauge-live] @C17 adds(stats.globalStats.ArchiverRoutines.count) == old(adds(stats.globalStats.ArchiverRoutines.count)) + 1 && stats.globalStats != nil && stats.globalStats.ArchiverRoutines != nil // C17: worker gauges equal the number of live workers
 //@   ensures [gauge-balanced] @C17 adds(stats.globalStats.ArchiverRoutines.count) == old(adds(stats.globalStats.ArchiverRoutines.count)) // C17: zero after stop
+
+// ---------------------------------------------------------------------------------------
+// archive$1: the per-URL fetch goroutine.
+
+//@ func ProcessBody
+//@   opaque
+//@   modifies models.URL::*
+
+//@ pred statsReady() = stats.globalStats != nil && stats.globalStats.URLsCrawled != nil && stats.globalStats.MeanHTTPResponseTime != nil && stats.globalStats.MeanProcessBodyTime != nil && stats.globalStats.MeanWaitOnFeedbackTime != nil && stats.globalStats.HTTPReturnCodes != nil
+
+//@ func archive$1
+//@   property C06
+//@   requires item != nil && item.url != nil && item.url.request != nil && config.config != nil && config.config.MaxRetry >= 0 && globalArchiver != nil
+//@   requires [clients] (config.config.Proxy == "" ==> globalArchiver.Client != nil) && (config.config.Proxy != "" ==> globalArchiver.ClientWithProxy != nil)
+//@   loop retry invariant [attempts] 0 <= retry && retry <= config.config.MaxRetry && attempts == old(attempts) + retry && config.config != nil && config.config.MaxRetry == old(config.config.MaxRetry) && config.config.Proxy == old(config.config.Proxy) && globalArchiver == old(globalArchiver) && globalArchiver != nil && globalArchiver.Client == old(globalArchiver.Client) && globalArchiver.ClientWithProxy == old(globalArchiver.ClientWithProxy) && req != nil && item.url != nil // C06: each URL is attempted at most --max-retry + 1 times per visit
+//@   ensures [retry-bound] attempts <= old(attempts) + old(config.config.MaxRetry) + 1 // C06: each URL is attempted at most --max-retry + 1 times per visit
+//@   ensures [attempted] attempts >= old(attempts) + 1
